@@ -12,7 +12,8 @@
 (***************************************************************************)
 EXTENDS Integers, FiniteSets, Sequences, TLC
 
-Kinds == {"int64", "bigint", "float", "negzero", "inf", "nan", "str", "bytes", "none", "bool", "container", "stream"}
+\* "badkeymap": a mapping (at any depth) with a key JSON cannot express (a tuple, bytes): a pickle carries it, JSON does not
+Kinds == {"int64", "bigint", "float", "negzero", "inf", "nan", "str", "bytes", "none", "bool", "container", "stream", "badkeymap"}
 Lens  == {"zero", "below", "at", "above", "big"}          \* relative to disk_min_file_size (for str/bytes/container/stream)
 Feats == {"CR", "LF", "CRLF", "NUL", "U85", "U2028", "astral", "surrogate", "BOM"}   \* BOM: U+FEFF as the first code point
 Thrs  == {"t0", "t1", "tsmall", "t32k"}
@@ -66,7 +67,7 @@ RoundTripOrReject == \A v \in Cases, c \in Configs, a \in Accessors : Applies(v,
 \* a value is rejected only for a reason the documentation gives
 RejectOnlyUnstorable == \A v \in Cases, c \in Configs, a \in Accessors :
     (Applies(v, a) /\ Outcome(v, c, a) = "rejected") =>
-        ("surrogate" \in v.feat \/ (c.disk = "JSONDisk" /\ v.kind \in {"bytes", "stream"}) \/
+        ("surrogate" \in v.feat \/ (c.disk = "JSONDisk" /\ v.kind \in {"bytes", "stream", "badkeymap"}) \/
          a \in {"incr-across", "decr-across"} \/ (c.disk = "JSONDisk" /\ a \in IncrAcc))
 
 VARIABLE x
